@@ -21,7 +21,7 @@ class C18(BaseCheck):
   REQUIRED_CLASSES = ('counter', 'gauge', 'percentile:below-reservoir', 'percentile:above-reservoir',
                       'full-stack', 'percentile:busy-after-full', 'zero-increment', 'fractional-increment',
                       'overlapping-measure', 'gauge:persistent-objects', 'percentile:second-aggregation',
-                      'sibling-class-same-short-name', 'source-subclass', 'client-id:equal-not-identical', 'percentile:idle-siblings', 'percentile:aggregation-spans-clock-ticks', 'objects-bound-before-reset', 'percentile:idle-service-listed-after-a-live-one', 'aggregated-per-endpoint-first')
+                      'sibling-class-same-short-name', 'source-subclass', 'client-id:equal-not-identical', 'percentile:idle-siblings', 'percentile:aggregation-spans-clock-ticks', 'objects-bound-before-reset', 'percentile:idle-service-listed-after-a-live-one', 'aggregated-per-endpoint-first', 'recording-during-aggregation')
   ASSUMPTIONS = ('percentile bounds allow 1e-9 relative slack for the linear interpolation',)
   QUICK_CASES = 720
   THOROUGH_CASES = 40000
@@ -185,6 +185,37 @@ class C18(BaseCheck):
       out.obligations += 1
       if not all(g.ready() for g in gs):
         out.violate('measure:block-stuck', 'a timed block did not finish', {})
+    if idx % 6 == 5 and env is not None:
+      # a recorder keeps working while the aggregation is parked at its per-metric yields: each round it records
+      # against a source that has no series yet and then against a known one.  The per-service total reported
+      # is the total at SOME instant of that update sequence (nothing recorded before that instant is missing
+      # while something recorded after it is counted)
+      import gevent
+      classes.add('recording-during-aggregation')
+      svc_ = 'pcon%d' % idx
+      V(Source('m', svc_, 'h-known:1', None)).cnt(5)
+      totals_ = [5]
+      stop_rec = [False]
+
+      def recorder():
+        k_ = 0
+        while not stop_rec[0] and k_ < 60:
+          k_ += 1
+          V(Source('m', svc_, 'h-new:%d' % k_, None)).cnt(1)
+          totals_.append(totals_[-1] + 1)
+          V(Source('m', svc_, 'h-known:1', None)).cnt(10)
+          totals_.append(totals_[-1] + 10)
+          gevent.sleep(0)
+      g_rec = gevent.spawn(recorder)
+      agg_c = VarzAggregator.Aggregate(VarzReceiver.VARZ_DATA, VarzReceiver.VARZ_METRICS)
+      stop_rec[0] = True
+      g_rec.join(timeout=1)
+      out.obligations += 1
+      got_c = agg_c.get('verif.c18.cnt', {}).get((svc_, None))
+      if got_c is None or got_c.total not in totals_:
+        out.violate('aggregate:sum', 'verif.c18.cnt for %r reported as %r while a recorder was adding 1 (new source) and 10 (known '
+                    'source) per round during the aggregation: the totals over that update sequence were %r...' % (
+                      (svc_, None), got_c and got_c.total, totals_[:7]), {'metric_kind': 'cnt', 'view': 'during-aggregation'})
     if idx % 5 == 1:
       # another view of the same tables is taken first (a per-endpoint breakdown, through the documented
       # key_selector argument): it is judged against the same increments, and leaves the per-service view alone
@@ -214,10 +245,11 @@ class C18(BaseCheck):
       if not ts:
         continue
       series = VarzReceiver.VARZ_DATA.get(metric, {})
+      n_series = sum(1 for k_ in series if not str(getattr(k_, 'service', '')).startswith('pcon'))    # (the concurrent recorder's own sources aside)
       out.obligations += 1
-      if len(series) > len(ts):
+      if n_series > len(ts):
         out.violate('series:split', '%s has %d series for %d distinct (method, service, endpoint, client id) '
-                    'tuples after %d updates' % (metric, len(series), len(ts), nops),
+                    'tuples after %d updates' % (metric, n_series, len(ts), nops),
                     {'metric_kind': short}, {'tuples': sorted(map(repr, ts))})
       # per (service, client_id) aggregate
       by_key = {}
